@@ -51,18 +51,24 @@ theorem contains_err_iff (l : TL) (b : List (Var × Rat)) :
     by_contra hx'
     exact hn ⟨x, hx, hx'⟩
 
-/-- A list of proper terms is reported empty exactly when no behaviour satisfies it. -/
-theorem isEmpty_iff (O : Oracle) (hO : O.Certified) (l : TL) (hp : l.Proper) (e : Bool)
+/-- A list is reported empty exactly when no behaviour satisfies it — also when some or all of its rows are
+    variable-free (`0 ≤ k`): since the repair of `is_polytope_empty` for matrices without columns the hypothesis
+    `Proper` of earlier versions of this theorem is gone. -/
+theorem isEmpty_iff (O : Oracle) (hO : O.Certified) (l : TL) (e : Bool)
     (h : isEmpty O l = .ok e) : e = true ↔ ¬ ∃ v, TL.holds l v := by
   unfold isEmpty at h
   cases e with
-  | true => simp only [true_iff]; exact polyEmpty_true O hO _ _ h
+  | true =>
+    simp only [true_iff]
+    exact polyEmpty_true O hO _ _ (fun hn => TL.varfree_of_vars_nil l (List.length_eq_zero_iff.mp hn)) h
   | false =>
     simp only [Bool.false_eq_true, false_iff, not_not]
     by_cases hl : l = []
     · subst hl; exact ⟨fun _ => 0, TL.holds_nil _⟩
-    · have hv := TL.Proper.vars_ne_nil l hp hl
-      exact polyEmpty_false O hO l _ hl (fun e => hv (List.length_eq_zero_iff.mp e)) h
+    · by_cases hn : l.vars.length = 0
+      · rw [hn] at h
+        exact ⟨fun _ => 0, polyEmpty_false_nocols O l hl (TL.varfree_of_vars_nil l (List.length_eq_zero_iff.mp hn)) h _⟩
+      · exact polyEmpty_false O hO l _ hl hn h
 
 /-- Consistency with refinement: a behaviour contained in a list is contained in everything that list refines. -/
 theorem contains_mono (O : Oracle) (hO : O.Certified) (l r : TL) (b : List (Var × Rat))
